@@ -123,6 +123,17 @@ func init() {
 					}
 				}
 			}
+			// JSON 6902 patches written as YAML whose values are PLAIN scalars that YAML 1.1 and YAML 1.2 read differently
+			// (`yes`, `on`, `off`, `n`, `0o17`, `1_000`): whatever they mean, they mean the same under both spellings
+			for _, L := range t.Layers {
+				ps, _ := L.Kust["patches"].([]interface{})
+				for _, p := range ps {
+					po, _ := p.(Obj)
+					if txt, isS := po["patch"].(string); isS && po["target"] != nil && strings.HasPrefix(txt, "- op:") && r.Intn(2) == 0 {
+						po["patch"] = txt + "- op: add\n  path: /metadata/annotations/jp2\n  value: " + pickS(r, []string{"yes", "on", "off", "n", "\"yes\"", "1_000"}) + "\n"
+					}
+				}
+			}
 			fs := filesys.MakeFsInMemory()
 			t.Write(fs, "/w")
 			base, err, pnc := safeBuild(func() (string, error) { return runBuild(fs, t.TopDir("/w"), nil) })
